@@ -14,7 +14,11 @@ const (
 	SinkErrAt = 1 // write number K (0-based) and all later ones return (0, ErrSink)
 	SinkShort = 2 // write number K returns (n < len, ErrSink); later ones fail
 	SinkDead  = 3 // every write fails
+	SinkPanic = 4 // write number K panics (a bounded buffer, a test logger calling FailNow)
 )
+
+// ErrSinkPanic is the value a panicking sink panics with.
+var ErrSinkPanic = errors.New("simulated sink panic")
 
 // SimSink is the simulator's io.Writer. It yields *before* looking at the bytes, so a
 // library buffer that is reused while the sink still holds it is exposed under C18; it
@@ -28,6 +32,8 @@ type SimSink struct {
 	Calls  int
 	Failed int
 	Cur    []byte // bytes accepted since the last Mark
+	// Panicked: the sink has panicked (plan SinkPanic)
+	Panicked bool
 }
 
 func NewSink(e *Env, plan, k int) *SimSink { return &SimSink{Env: e, Plan: plan, K: k} }
@@ -39,6 +45,12 @@ func (s *SimSink) Write(p []byte) (int, error) {
 	idx := s.Calls
 	s.Calls++
 	switch s.Plan {
+	case SinkPanic:
+		if idx == s.K {
+			s.Panicked = true
+			s.fail("sink_panic")
+			panic(ErrSinkPanic)
+		}
 	case SinkDead:
 		s.fail("sink_dead")
 		return 0, ErrSink
